@@ -1,6 +1,7 @@
 (* C03 — mask: exact residual signature after n positionals and named arguments. *)
 From Sigtools.Model Require Import Base Bind Roles Algebra.
-From Sigtools.Proofs Require Import SmallModel Basics Deciders.
+From Sigtools.Model Require Import Universe.
+From Sigtools.Proofs Require Import SmallModel Basics Deciders SweepDefs SweepDefs2 Bounded2.
 
 Theorem C03_wf s n names0 h r : mask s n names0 h = Ok r -> validate (params r) = true.
 Proof. exact (mask_wf s n names0 h r). Qed.
@@ -30,3 +31,18 @@ Theorem C03_none_decider_complete s n names0 :
   forall c, disjointb (kws c) names0 = true -> accepts s (shift_call n names0 c) = false.
 Proof. exact (mask_none_cex_complete s n names0). Qed.
 Print Assumptions C03_none_decider_complete.
+
+(* Bounded (bound in the statement): every signature of U(2,{a,b}), n <= 4, every
+   duplicate-free tuple of its own non-positional-only names in every order, ALL
+   calls: exact residual signature, and ValueError exactly when the signature
+   could not be passed those arguments at all *)
+Theorem C03_mask_exact_U2 s n names0 :
+  In s U2ab -> In n counts -> In names0 name_tuples -> names_avoid_po s names0 = true ->
+  match mask (mk s) n names0 nohide with
+  | Ok r => forall c, disjointb (kws c) names0 = true -> noncolliding c (params r) [s] = true ->
+                      accepts (params r) c = accepts s (shift_call n names0 c)
+  | Err e => e = ValueErr /\
+             forall c, disjointb (kws c) names0 = true -> accepts s (shift_call n names0 c) = false
+  end.
+Proof. exact (mask_exact_U2 s n names0). Qed.
+Print Assumptions C03_mask_exact_U2.
